@@ -1,16 +1,19 @@
 """C04 - read text equals authored text.
 
-Abstract inline content of a cue (text with a spelling per character, source line wraps, breaks, inline tags,
-WebVTT voice / timestamp / unknown tags) is generated here, serialised by the Coq SPEC serialisers
-(coq/spec/SpecTextRead.v, request 400) into DFXP / SAMI / WebVTT / SRT / MicroDVD documents, and read by the real
-readers through the public API.
-  property oracle  : Coq ok_lines (display items) (lines of the caption the reader returned)      [request 408]
-  correspondence   : the reader models (coq/model/TextRead.v composed with the library stand-ins, request 402)
-                     give the same TEXT/BREAK lines (exact node equality is measured, alarm at line level)
-  library layers   : html.parser's events for the SAMI serialisation == spec events_of (403);
-                     BeautifulSoup's tree for the DFXP serialisation == spec tree_of (404)
-Streams: A random structured content x 5 formats; B exhaustive short sequences over a token alphabet per format
-(tags with every boundary variant, entity spellings, white-space shapes).
+Abstract inline content of a cue (text with a spelling per character, source line wraps - also next to inline elements -,
+breaks, inline tags in every start-tag shape, comments / processing instructions, WebVTT voice / timestamp / unknown tags)
+is generated here, serialised by the Coq SPEC serialisers (coq/spec/SpecTextRead.v, request 400) into DFXP / SAMI / WebVTT /
+SRT / MicroDVD documents, and read by the real readers through the public API.
+  property oracle  : Coq ok_lines_a (display items) (lines of the caption the reader returned)     [request 408]
+                     (trim; runs of white space collapse; U+00A0 inside a line is a character)
+  correspondence   : the reader models (coq/model/TextRead.v composed with the library stand-ins, request 402) give the same
+                     TEXT/BREAK lines (exact node equality is counted); stream D: literal equality with vtt_decode
+  library layers   : html.parser's events for the SAMI serialisation vs spec events_of (403); BeautifulSoup's tree for the
+                     DFXP serialisation vs spec tree_of (404) - COUNTED and noted, never an alarm about pycaption
+Streams: A random structured content x 5 formats; B short token sequences per format (exhaustive to length 2, sampled at
+3 in quick); C WebVTT documents with identifiers / NOTE / STYLE / REGION blocks; D regex tie (random tag-like payloads).
+Known findings are recognised by the failure (observed = authored with the wrap runs next to inline elements shown as
+nothing / with the references shown literally), and both shapes are in the B alphabets, i.e. generated in every run.
 """
 import itertools
 from html.parser import HTMLParser
@@ -28,6 +31,8 @@ READERS = {"DFXP": DFXPReader, "SAMI": SAMIReader, "WebVTT": WebVTTReader, "SRT"
 
 # ---- abstract content -------------------------------------------------------------------------------------
 PLAIN = list("abcdefghijklmnopqrstuvwxyzABCDEFXYZ0123456789.,!?'\"-;#=/()[]{}%")
+# characters of the str.splitlines() set that are NOT line ends in any of the five formats, other non-ASCII blanks
+ODD = ["\u2028", "\u2029", "\x85", "\x0c", "\x0b", "\x1c", "\x1e", "\u00a0", "\u2003", "\u200b", "\ufeff"]
 SPECIAL = ["&", "<", ">", "&", "<", ">", " ", "é", "©", "€", "‎", "中", "\U0001F600", "x", ";", "#"]
 LOOKALIKE = ["&amp;", "&lt;", "&gt;", "&#60;", "&#x3c;", "&nbsp;", "&bogus;", "<b>", "</i>", "<br/>", "<v Bob>",
              "a<b", "R&D", "]]>", "<!--", "&lt", "&#38;lt;", "&amp;lt;", "<00:01.000>", "</p>", "<span>"]
@@ -36,11 +41,16 @@ XML_NAMED = {38, 60, 62, 34, 39}
 VTT_NAMED = {38, 60, 62, 160, 8206, 8207}
 
 
-def spellings(fmt, c):
+VTT_REFS = [0.03]        # share of WebVTT characters spelled as a numeric / HTML named reference (known finding)
+
+
+def spellings(fmt, c, rng=None):
     o = ord(c)
     if fmt in ("SRT", "MicroDVD"):
         return [0]
     if fmt == "WebVTT":
+        if rng is not None and rng.random() < VTT_REFS[0]:
+            return [2, 3, 4] + ([5] if o in HTML_NAMED and o not in VTT_NAMED else [])
         r = [1] if o in VTT_NAMED else []
         if c not in "&<":
             r.append(0)
@@ -59,20 +69,26 @@ def rand_word(rng, fmt, adversarial):
     if r < adversarial * 0.5:
         w = rng.choice(LOOKALIKE)
     elif r < adversarial:
-        w = "".join(rng.choice(SPECIAL + PLAIN[:10]) for _ in range(rng.randint(1, 4)))
+        w = "".join(rng.choice(SPECIAL + PLAIN[:10] + (ODD if rng.random() < 0.3 else [])) for _ in range(rng.randint(1, 4)))
     else:
         w = "".join(rng.choice(PLAIN) for _ in range(rng.randint(1, 6)))
     if fmt == "MicroDVD":
         w = w.replace("|", "/")
     if not w.strip():
         return rand_word(rng, fmt, adversarial)      # a word has a visible character
+    if w != w.strip():
+        # Unicode white space at the edge of a word may end up next to a source line wrap, where the readers' strip()
+        # removes it; for U+00A0 that is a (small) loss the comparison would report - kept inside words (design/C04.md)
+        w = "x" + w + "x"
     return w
 
 
 def txt_item(rng, fmt, s):
     cs = []
     for ch in s:
-        sp = rng.choice(spellings(fmt, ch))
+        if fmt in ("DFXP", "SAMI") and ch in "\x0b\x0c\x1c\x1e\x85" :
+            ch = "\u2028"                # C0/C1 controls are not XML / HTML characters
+        sp = rng.choice(spellings(fmt, ch, rng))
         if fmt == "WebVTT" and ch == ">" and sp == 0 and cs and cs[-1][0] == ord("-"):
             sp = 1                       # never a raw "-->" in cue text
         cs.append((ord(ch), sp))
@@ -107,6 +123,8 @@ def rand_wrap(rng):
     return ("w", rng.choice([0, 0, 0, 100, 100, 200]) + rng.randint(0, 6))
 
 
+COMMENTS = [" c ", "note", " a<b>c ", ""]
+PIS = ["pi x", "xml-stylesheet href=\"a.css\""]
 VTT_UNKNOWN = ["bar", "verbatim", "i2", "cite", "vv", "rtl", "language", "blink", "x", "under", "br"]
 STAMPS = ["00:01.000", "12:34.567", "1:00:01.000", "100:59:59.999"]
 
@@ -123,8 +141,10 @@ def rand_line(rng, fmt, adversarial, depth=0, wraps=True):
         r = rng.random()
         can_tag = fmt in ("DFXP", "SAMI", "WebVTT") and depth < 2
         if can_tag and r < 0.25:
-            kmax = {"DFXP": 3, "SAMI": 4, "WebVTT": 6}[fmt]
+            kmax = {"DFXP": 3, "SAMI": 4, "WebVTT": 7}[fmt]
             kind = rng.randint(0, kmax)
+            if fmt == "WebVTT":
+                kind += 10 * rng.choice([0, 0, 1, 2, 3, 4, 5])       # shape of the start tag: classes / annotation / TAB
             inner = rand_line(rng, fmt, adversarial, depth + 1, wraps=False)
             items += [("o", kind)] + inner + [("c", kind)]
         elif fmt == "WebVTT" and depth < 2 and r < 0.33:
@@ -134,22 +154,24 @@ def rand_line(rng, fmt, adversarial, depth=0, wraps=True):
         elif fmt == "WebVTT" and r < 0.38:
             items.append(("ts", rng.choice(STAMPS)))
         elif fmt == "SAMI" and r > 0.8:
-            if rng.random() < 0.5:
+            ent = rand_entity(rng)
+            blank = chr(ENT_CP[ent[1]]).isspace()     # &nbsp; &ensp; ...: kept inside a word (see rand_word)
+            if blank or rng.random() < 0.5:
                 items.append(txt_item(rng, fmt, rand_word(rng, fmt, 0.0)))
-            items.append(rand_entity(rng))
-            if rng.random() < 0.3:
+            items.append(ent)
+            if blank or rng.random() < 0.3:
                 items.append(txt_item(rng, fmt, rand_word(rng, fmt, 0.0)))
         else:
             items.append(txt_item(rng, fmt, rand_word(rng, fmt, adversarial)))
         k += 1
         if k < nwords:
-            prev_is_text = items[-1][0] in ("t", "e")
-            if wraps and fmt in ("DFXP", "SAMI") and prev_is_text and rng.random() < 0.3:
-                items.append(rand_wrap(rng))
-                items.append(txt_item(rng, fmt, rand_word(rng, fmt, adversarial)))   # a wrap is always inside text
-                k += 1
-                if k < nwords:
+            if fmt in ("DFXP", "SAMI") and rng.random() < 0.04:
+                items.append(("com", rng.choice(COMMENTS)) if fmt == "SAMI" or rng.random() < 0.7 else ("pi", rng.choice(PIS)))
+            if fmt in ("DFXP", "SAMI") and rng.random() < (0.3 if wraps else 0.1):
+                # a source line wrap between two words - also next to an inline element (pretty-printed documents)
+                if rng.random() < 0.2:
                     items.append(txt_item(rng, fmt, " "))
+                items.append(rand_wrap(rng))
             else:
                 items.append(txt_item(rng, fmt, rng.choice([" ", " ", "  "])))
     return items
@@ -189,6 +211,10 @@ def wire_items(items):
             out.append([6, it[1]])
         elif k == "e":
             out.append([8, it[1], ENT_CP[it[1]]])
+        elif k == "com":
+            out.append([9, it[1]])
+        elif k == "pi":
+            out.append([10, it[1]])
         else:
             out.append([7, bool(it[1]), it[2]])
     return out
@@ -306,12 +332,14 @@ def html_events(content):
 
 
 def bs4_tree(content):
-    from bs4 import BeautifulSoup, NavigableString
+    from bs4 import BeautifulSoup, NavigableString, Comment, ProcessingInstruction
     soup = BeautifulSoup("<p>" + content.replace("&apos;", "'") + "</p>", "html.parser")
 
     def kids(e):
         out = []
         for ch in e.contents:
+            if isinstance(ch, (Comment, ProcessingInstruction)):
+                continue
             if isinstance(ch, NavigableString):
                 out.append([0, str(ch)])
             else:
@@ -319,6 +347,203 @@ def bs4_tree(content):
                             kids(ch)])
         return out
     return kids(soup.find("p"))
+
+
+# ---- known findings, recognised by the FAILURE ----------------------------------------------------------------------
+def _is_ws_text(it):
+    # WS_UNICODE: Python white space (U+2028, U+00A0 ... after a wrap are dropped with the indentation like blanks);
+    # otherwise ASCII blanks only (a no-break space in front of the wrap stays).  The classification tries both.
+    if WS_UNICODE[0]:
+        return it[0] == "t" and all(chr(c).isspace() for c, _ in it[1])
+    return it[0] == "t" and all(chr(c) in " \t\r\n\x0c" for c, _ in it[1])
+
+
+WS_UNICODE = [False]
+
+
+def _glue_alts(items, sami):
+    out = []
+    for mode in (False, True):
+        WS_UNICODE[0] = mode
+        out += [a for a in (glue_alt(items, sami), glue_alt(items, not sami)) if a is not None]
+        out += glue_subsets(items)
+    WS_UNICODE[0] = False
+    return out
+
+
+def glue_alt(items, sami=False):
+    """DFXP/SAMI: what the readers show when a source line wrap touches an inline element: the run of white space
+    holding the wrap is lost (bs4 hands over "\\n" for an all-white string; the text-node matcher strips a leading
+    line end + indentation and a trailing one).  Returns the items with exactly those runs removed."""
+    out, i, n, changed = [], 0, len(items), False
+    solid = lambda it: it[0] in ("o", "c", "com", "pi")        # noqa: E731
+    while i < n:
+        if items[i][0] == "w" or _is_ws_text(items[i]):
+            j = i
+            while j < n and (items[j][0] == "w" or _is_ws_text(items[j])):
+                j += 1
+            run = items[i:j]
+            has_w = any(x[0] == "w" for x in run)
+            left_tag = i > 0 and solid(items[i - 1])
+            right_tag = j < n and solid(items[j])
+            left_edge = i == 0 or items[i - 1][0] == "br"
+            right_edge = j == n or items[j][0] == "br"
+            has_lf = any(x[0] == "w" and (sami or x[1] // 100 in (0, 1)) for x in run)
+            if (left_tag or left_edge) and (right_tag or right_edge):
+                lost = has_lf and (left_tag or right_tag)      # an all-white string with a line feed: bs4 gives "\n", dropped
+            elif left_tag:
+                lost = run[0][0] == "w"                        # leading [\n\r]+\s* is stripped
+            elif right_tag:
+                # trailing LF + indentation is dropped (DFXP: a CR stays; SAMI: CR and CR LF have become LF by then)
+                lost = run[0][0] == "w" and (sami or run[0][1] // 100 == 0)
+            else:
+                lost = False
+            if lost:
+                changed = True
+            else:
+                out += run
+            i = j
+        else:
+            out.append(items[i])
+            i += 1
+    return out if changed else None
+
+
+def literal_refs_alt(items):
+    """WebVTT: what the reader shows for numeric / HTML named references: their spelling, literally"""
+    names = {34: "quot", 39: "apos", 233: "eacute", 169: "copy", 8364: "euro"}
+    changed = [False]
+
+    def conv(cs):
+        out = []
+        for c, sp in cs:
+            lit = None
+            if sp == 2:
+                lit = "&#%d;" % c
+            elif sp == 3:
+                lit = "&#x%x;" % c
+            elif sp == 4:
+                lit = "&#X%X;" % c
+            elif sp == 5 and c in names:
+                lit = "&%s;" % names[c]
+            if lit is None:
+                out.append((c, sp))
+            else:
+                changed[0] = True
+                out += [(ord(ch), 1 if ch == "&" else 0) for ch in lit]
+        return out
+    out = []
+    for it in items:
+        if it[0] == "t":
+            out.append(("t", conv(it[1])))
+        elif it[0] == "v":
+            out.append(("v", it[1], conv(it[2])))
+        else:
+            out.append(it)
+    return out if changed[0] else None
+
+
+def glue_subsets(items):
+    """every way of showing some of the wrap runs that touch an inline element / comment as nothing (at most 10 runs)"""
+    runs, i, n = [], 0, len(items)
+    solid = lambda it: it[0] in ("o", "c", "com", "pi")        # noqa: E731
+    while i < n:
+        if items[i][0] == "w" or _is_ws_text(items[i]):
+            j = i
+            while j < n and (items[j][0] == "w" or _is_ws_text(items[j])):
+                j += 1
+            if any(x[0] == "w" for x in items[i:j]) and ((i > 0 and solid(items[i - 1])) or (j < n and solid(items[j]))):
+                runs.append((i, j))
+            i = j
+        else:
+            i += 1
+    runs = runs[:10]
+    out = []
+    for mask in range(1, 2 ** len(runs)):
+        drop = set()
+        for b, (i, j) in enumerate(runs):
+            if mask >> b & 1:
+                drop.update(range(i, j))
+        out.append([it for k, it in enumerate(items) if k not in drop])
+    return out
+
+
+def strip_alt(items):
+    """DFXP/SAMI: Unicode white space (U+00A0 ...) directly after or before a source line wrap is removed by the readers'
+    lstrip()/strip() together with the indentation"""
+    out, changed = [], False
+    for k, it in enumerate(items):
+        if it[0] == "t":
+            cs = list(it[1])
+            if k > 0 and items[k - 1][0] == "w":
+                while cs and chr(cs[0][0]).isspace():
+                    cs.pop(0)
+                    changed = True
+            if k + 1 < len(items) and items[k + 1][0] == "w":
+                while cs and chr(cs[-1][0]).isspace():
+                    cs.pop()
+                    changed = True
+            out.append(("t", cs))
+        else:
+            out.append(it)
+    return out if changed else None
+
+
+def strip_alts(items):
+    """strip_alt applied at every non-empty subset of the places where it can apply (at most 6 places)"""
+    places = []
+    for k, it in enumerate(items):
+        if it[0] == "t" and it[1]:
+            if k > 0 and items[k - 1][0] == "w" and chr(it[1][0][0]).isspace():
+                places.append((k, 0))
+            if k + 1 < len(items) and items[k + 1][0] == "w" and chr(it[1][-1][0]).isspace():
+                places.append((k, 1))
+    places = places[:6]
+    out = []
+    for mask in range(1, 2 ** len(places)):
+        alt = [it if it[0] != "t" else ("t", list(it[1])) for it in items]
+        for b, (k, side) in enumerate(places):
+            if mask >> b & 1:
+                cs = alt[k][1]
+                if side == 0:
+                    while cs and chr(cs[0][0]).isspace():
+                        cs.pop(0)
+                else:
+                    while cs and chr(cs[-1][0]).isspace():
+                        cs.pop()
+        out.append(alt)
+    return out
+
+
+def classify_known(viols):
+    """re-label a text-differs violation when the observed lines are EXACTLY what the known defect produces"""
+    reqs, slots = [], []
+    for v in viols:
+        if v["kind"] != "text-differs" or "observed" not in v:
+            continue
+        items = [tuple(x) for x in v["input"]]
+        if v["fmt"] in ("DFXP", "SAMI"):
+            kind = "words-glued-at-wrap-next-to-inline-element"
+            alts = _glue_alts(items, v["fmt"] == "SAMI")
+            for alt in alts:
+                reqs.append((408, [wire_items(alt), v["observed"]]))
+                slots.append((v, kind))
+            for base_items in [items] + alts[:12]:
+                for st in strip_alts(base_items)[:63]:
+                    reqs.append((408, [wire_items(st), v["observed"]]))
+                    slots.append((v, "unicode-space-stripped-at-wrap"))
+            continue
+        elif v["fmt"] == "WebVTT":
+            alt, kind = literal_refs_alt(items), "vtt-character-reference-left-literal"
+        else:
+            continue
+        if alt is not None:
+            reqs.append((408, [wire_items(alt), v["observed"]]))
+            slots.append((v, kind))
+    for (v, kind), r in zip(slots, oracle_batch(reqs) if reqs else []):
+        if r == 1 and v["kind"] == "text-differs":
+            v["kind"] = kind
+            v["what"] = kind + ": " + v["what"]
 
 
 # ---- one batch of cues for one format -------------------------------------------------------------------------------
@@ -391,16 +616,20 @@ def run_batch(ctx, res, fmt, cues, stream):
     if fmt == "SAMI":
         exp = oracle_batch([(403, w) for _, w, _ in keep])
         for (c, w, s), e in zip(keep, exp):
-            if html_events(s) != e:
-                res["disagreements"].append({"fmt": fmt, "what": "library layer: html.parser events differ from spec events_of",
-                                             "content": s, "html.parser": html_events(s), "spec": e})
+            same = html_events(s) == e
+            key = "lib_html_parser_events_" + ("equal" if same else "differ")
+            res["distribution"][key] = res["distribution"].get(key, 0) + 1
+            if not same and len(res["notes"]) < 8:
+                res["notes"].append(f"library layer (not pycaption): html.parser events differ from spec events_of on {s!r}")
     if fmt == "DFXP":
         exp = oracle_batch([(404, [0, w]) for _, w, _ in keep])
         for (c, w, s), e in zip(keep, exp):
             t = bs4_tree(s)
-            if e == [] or norm_tree(e[0]) != norm_tree(t):
-                res["disagreements"].append({"fmt": fmt, "what": "library layer: BeautifulSoup tree differs from spec tree_of",
-                                             "content": s, "bs4": t, "spec": e})
+            same = e != [] and norm_tree(e[0]) == norm_tree(t)
+            key = "lib_bs4_tree_" + ("equal" if same else "differ")
+            res["distribution"][key] = res["distribution"].get(key, 0) + 1
+            if not same and len(res["notes"]) < 8:
+                res["notes"].append(f"library layer (not pycaption): BeautifulSoup tree differs from spec tree_of on {s!r}")
 
 
 IDENTS = [None, None, "1", "3", "cue-2", "intro", "a b c", "Chapter 1 - start", "NOTEBOOK"]
@@ -414,6 +643,7 @@ HEADERS = [["WEBVTT"], ["WEBVTT - a title"], ["WEBVTT", "Kind: captions", "Langu
 def run_vtt_documents(ctx, res, ndocs):
     rng = ctx.rng
     specs = []
+    keep_refs, VTT_REFS[0] = VTT_REFS[0], 0.0        # block structure is the subject here; references: streams A, B
     for _ in range(ndocs):
         blocks = []
         cues = []
@@ -432,6 +662,7 @@ def run_vtt_documents(ctx, res, ndocs):
         if rng.random() < 0.4:
             blocks[-1][-1] = 0                     # the document ends right after the last block
         specs.append((list(rng.choice(HEADERS)), blocks, cues))
+    VTT_REFS[0] = keep_refs
     lines_all = oracle_batch([(410, [h, b]) for h, b, _ in specs])
     payloads = oracle_batch([(400, [2, wire_items(c)]) for _, _, cs in specs for c in cs])
     pos = 0
@@ -445,7 +676,7 @@ def run_vtt_documents(ctx, res, ndocs):
             continue
         doc = "\n".join(lines) + rng.choice(["", "\n"])
         jobs.append((doc, cues, b))
-    models = oracle_batch([(409, [True, doc.splitlines()]) for doc, _, _ in jobs])
+    models = oracle_batch([(409, [True, reader_lines(doc)]) for doc, _, _ in jobs])
     for (doc, cues, blocks), m in zip(jobs, models):
         res["evaluations"] += len(cues)
         res["distribution"]["vtt_documents"] = res["distribution"].get("vtt_documents", 0) + 1
@@ -479,6 +710,49 @@ def run_vtt_documents(ctx, res, ndocs):
             res["distribution"]["model_exact_equal"] = res["distribution"].get("model_exact_equal", 0) + 1
 
 
+def reader_lines(doc):
+    """the readers' line splitting: LF, CR LF, CR only (pycaption.utils.split_lines)"""
+    import re
+    lines = re.split("\r\n|\r|\n", doc)
+    if lines and lines[-1] == "":
+        lines.pop()
+    return lines
+
+
+FUZZ = ["<", "<", "</", ">", ">", "c", "i", "b", "u", "v", "ruby", "rt", "lang", "x", "bar", ".", ".a", " ", " ", "\t", "B",
+        "1", ":", "00:01.000", "&amp;", "&lt;", "&gt;", "&nbsp;", "&", ";", "-", "_", "é", "/"]
+
+
+def run_regex_fuzz(ctx, res, n):
+    """D: ties VOICE_SPAN_PATTERN / OTHER_SPAN_PATTERN / the replace chain to the model: random tag-like one-line cue
+    payloads through the PUBLIC reader, the text it returns must be literally the model's vtt_decode (request 405)"""
+    rng = ctx.rng
+    payloads = set()
+    while len(payloads) < n:
+        sline = "".join(rng.choice(FUZZ) for _ in range(rng.randint(1, 9)))
+        if sline.strip() and "-->" not in sline:
+            payloads.add(sline)
+    payloads = sorted(payloads)
+    models = oracle_batch([(405, [True, p]) for p in payloads])
+    bad = 0
+    for pl, m in zip(payloads, models):
+        got = read_doc("WebVTT", "WEBVTT\n\n00:00:01.000 --> 00:00:02.000\n%s\n" % pl)
+        if not isinstance(got, Ok):
+            obs = ("raise", got.code)
+        elif len(got.v) == 0:
+            obs = ""
+        else:
+            obs = "".join(n[1] for n in got.v[0] if n[0] == "t") if len(got.v) == 1 and all(n[0] == "t" for n in got.v[0]) else got.v
+        res["evaluations"] += 1
+        if obs != m:
+            bad += 1
+            if len(res["disagreements"]) < 30:
+                res["disagreements"].append({"fmt": "WebVTT", "what": "regex tie: reader text differs literally from the model's vtt_decode",
+                                             "payload": pl, "impl": obs, "model": m})
+    res["distribution"]["D_regex_fuzz_payloads"] = len(payloads)
+    res["distribution"]["D_regex_fuzz_differ"] = bad
+
+
 def norm_tree(t):
     out = []
     for x in t:
@@ -491,6 +765,8 @@ def norm_tree(t):
 
 def shape_of(fmt, items, content):
     kinds = [it[0] for it in items]
+    if "com" in kinds or "pi" in kinds:
+        return "comment-or-pi"
     if fmt in ("DFXP", "SAMI") and "w" in kinds:
         return "wrapped-text"
     for a, b, c in zip(items, items[1:], items[2:]):
@@ -515,6 +791,14 @@ def tokens_for(fmt):
                 [("o", 0)], [("c", 0)], [("o", 3)], [("c", 3)], [("o", 4)], [("o", 5)], [("c", 5)], [("c", 4)],
                 [("o", 6)], [("c", 6)], [("v", [], [(66, 0), (111, 0), (98, 0)])], [("v", ["loud"], [(65, 0), (32, 0), (66, 0)])],
                 [("c", 7)], [("ts", "00:01.000")], [("ts", "1:00:01.000")]]
+        # every known tag in every start-tag shape (bare, class, annotation after a space / a TAB, both); one pair each
+        for t in range(8):
+            for v in (1, 2, 3, 4, 5):
+                if t == 7 and v in (3, 4):
+                    continue
+                toks.append([("o", t + 10 * v), T("w"), ("c", t)])
+        # numeric / HTML named references (the reader leaves them literal: known finding)
+        toks += [[("t", [(65, 2)])], [("t", [(233, 5)])], [("t", [(60, 3), (98, 0), (62, 4)])]]
         for n in ["bar", "verbatim", "i2", "cite", "vv", "rtl", "language", "u1", "b-x", "c_"]:
             toks.append([("unk", False, n)])
             toks.append([("unk", True, n)])
@@ -526,15 +810,21 @@ def tokens_for(fmt):
                 [("t", [(38, 2), (ord("l"), 0), (ord("t"), 0), (ord(";"), 0)])],        # &#38;lt;
                 [("t", [(60, 2), (ord("b"), 0), (62, 2)])],                             # &#60;b&#62;
                 [("t", [(65, 4)])], [("t", [(60, 1)])], [("t", [(62, 0)])], [("t", [(160, 1)])], [("t", [(39, 1)])],
-                [("w", 100)], [("w", 203)]]
+                [("w", 100)], [("w", 203)], [("com", " c ")], [T("\u2028")], [T("a\u00a0b")]]
+        if fmt == "DFXP":
+            toks += [[("pi", "pi x")]]
         if fmt == "SAMI":
             toks += [[("e", n)] for n in ("Eacute", "eacute", "Prime", "apos", "amp")]
         # whole inline elements as single tokens: adjacent elements separated only by a white-space text node
         toks += [[("o", 0), T("Hello"), ("c", 0)], [("o", 1), T("world"), ("c", 1)]]
+        # a no-break space at the start of a continuation line (known finding: stripped with the indentation)
+        toks += [[T("a"), ("w", 3), ("t", [(160, 1)]), T("b")]]
         return toks
     if fmt == "SRT":
-        return [[T("a")], [T(" ")], [T("<i>")], [T("&amp;")], [T("1")], [T("-->")], [("br",)], [T("|")], [T("{y:i}")]]
-    return [[T("a")], [T(" ")], [T("<i>")], [T("&amp;")], [T("{1}{2}")], [("br",)], [T("/")], [T("{y:i}")]]
+        return [[T("a")], [T(" ")], [T("<i>")], [T("&amp;")], [T("1")], [T("-->")], [("br",)], [T("|")], [T("{y:i}")],
+                [T("\u2028")], [T("\x85")], [T("\x0c")], [T("\u00a0")]]
+    return [[T("a")], [T(" ")], [T("<i>")], [T("&amp;")], [T("{1}{2}")], [("br",)], [T("/")], [T("{y:i}")],
+            [T("\u2028")], [T("\x85")], [T("\x0c")], [T("\u00a0")]]
 
 
 def inline_space_grid(fmt):
@@ -555,16 +845,13 @@ def inline_space_grid(fmt):
 
 
 def valid_sequence(fmt, items):
-    """well-formed and inside the domain: tags properly nested, at least one visible character, wraps not next to
-    an inline tag"""
+    """well-formed: tags properly nested (WebVTT: no line break inside a tag pair)"""
     stack = []
     for it in items:
         if it[0] == "o":
-            stack.append(("k", it[1]))
+            stack.append(("k", it[1] % 10 if fmt == "WebVTT" else it[1]))
         elif it[0] == "c":
-            if it[1] == 7 and fmt == "WebVTT":
-                if not stack or stack[-1] != ("v",):
-                    return False
+            if it[1] == 7 and fmt == "WebVTT" and stack and stack[-1] == ("v",):
                 stack.pop()
                 continue
             if not stack or stack[-1] != ("k", it[1]):
@@ -585,19 +872,12 @@ def valid_sequence(fmt, items):
                     return False
     if any(s[0] != "v" for s in stack):
         return False
-    # a source line wrap next to an inline tag (only white space between them) is outside the domain (design/C04.md)
-    solid = [it for it in items if not (it[0] == "t" and all(chr(c).isspace() for c, _ in it[1]))]
-    for a, b in zip(solid, solid[1:]):
-        if a[0] == "w" and b[0] in ("o", "c"):
-            return False
-        if b[0] == "w" and a[0] in ("o", "c"):
-            return False
     return True
 
 
 def run(ctx):
     res = {"evaluations": 0, "nontrivial": set(), "violations": [], "disagreements": [], "distribution": {},
-           "streams": 5, "notes": []}
+           "streams": 4, "notes": []}
     rng = ctx.rng
     # B: exhaustive short token sequences
     maxlen = ctx.n(3, 4)
@@ -605,9 +885,10 @@ def run(ctx):
         toks = tokens_for(fmt)
         seqs = []
         for L in range(1, maxlen + 1):
-            if len(toks) ** L > ctx.n(12000, 200000):
-                # alphabet too large for this length: sampled (WebVTT at length >= 3/4, DFXP/SAMI at 4 in thorough)
-                for _ in range(ctx.n(6000, 120000)):
+            if len(toks) ** L > ctx.n(4000, 200000):
+                # alphabet too large for this length: SAMPLED (quick: every format at length 3; thorough: at length 4,
+                # WebVTT also at 3)
+                for _ in range(ctx.n(5000, 120000)):
                     seqs.append(sum((rng.choice(toks) for _ in range(L)), []))
                 continue
             for combo in itertools.product(toks, repeat=L):
@@ -629,6 +910,8 @@ def run(ctx):
             cues = [rand_cue(rng, fmt, adv) for _ in range(12)]
             run_batch(ctx, res, fmt, cues, "A")
     run_vtt_documents(ctx, res, ctx.n(250, 8000))
+    run_regex_fuzz(ctx, res, ctx.n(2500, 60000))
+    classify_known(res["violations"])
     # shrink the first violation of every kind
     seen = set()
     for i, v in enumerate(res["violations"]):
@@ -637,23 +920,28 @@ def run(ctx):
             continue
         seen.add(key)
         res["violations"][i] = shrink(v)
-    res["rule"] = ("A: 12-cue documents of random structured inline content per format (1-3 lines, nested inline tags, "
-                   "per-character spellings raw/named/decimal/hex, source line wraps, WebVTT voice/timestamp/unknown tags); "
-                   "B: every well-formed sequence of <= %d tokens over a per-format token alphabet (tags with every boundary "
-                   "variant, entity spellings, white-space shapes). Non-trivial = distinct (format, serialised cue content)."
-                   % maxlen)
+    classify_known([v for v in res["violations"] if v["kind"] == "text-differs"])      # a shrunk input may show a known failure
+    res["rule"] = ("A: 12-cue documents of random structured inline content per format (1-3 lines, nested inline tags in every "
+                   "start-tag shape, per-character spellings raw/named/decimal/hex, source line wraps also next to inline "
+                   "elements, comments/PIs, U+2028/U+0085/FF/U+00A0 in text, WebVTT voice/timestamp/unknown tags); B: token "
+                   "sequences of <= %d tokens over a per-format alphabet - exhaustive up to length 2, SAMPLED above when the "
+                   "alphabet is too large (quick: length 3 sampled for every format); C: WebVTT documents with identifiers and "
+                   "NOTE/STYLE/REGION blocks; D: random tag-like WebVTT payloads, reader text == model vtt_decode literally. "
+                   "Non-trivial = distinct (format, serialised cue content)." % maxlen)
     nt = sorted(res["nontrivial"], key=lambda x: -len(x[1]))
     res["samples"] = [{"format": f, "content": s} for f, s in nt[:2]] + [{"format": f, "content": s} for f, s in nt[len(nt) // 2:len(nt) // 2 + 3]]
     res["clauses"] = {
-        "theorem": ["WebVTT: the replace chain decodes every reference exactly once (all token lists); voice tag -> 'Name: ', "
-                    "known tags vanish, unknown tags stay literal (all segment lists)",
-                    "SAMI stage 1 keeps & < > escaped whatever their spelling: the second parse gives the text exactly once",
+        "theorem": ["component facts about the reader MODELS only (no theorem mentions display/serialise/ok_lines_a): WebVTT "
+                    "replace chain decodes the six references once; the hand-written tag matcher deletes known tags by name; "
+                    "line loop = per-cue decode on well-formed documents",
+                    "SAMI stage 1 keeps & < > escaped whatever their spelling (second parse gives the text once)",
                     "text-node matcher keeps all words of text wrapped over several source lines",
-                    "DFXP/SAMI tree walk: br -> break, style tags contribute no characters"],
-        "correspondence_only": ["html.parser tokenisation (checked against the spec events_of on every SAMI cue)",
-                                "BeautifulSoup / lxml tree building (checked against the spec tree_of on every DFXP cue)",
-                                "document skeletons (head, timing attributes) around the inline content",
-                                "SRT / MicroDVD line splitting is executed (model vs reader), no theorem beyond the model"]}
+                    "DFXP/SAMI tree walk keeps all non-white-space characters (cannot see glued words)",
+                    "the two WebVTT regular expressions are pinned: an edit breaks props/C04.v"],
+        "correspondence_only": ["the statement itself for all five formats: oracle on the real readers",
+                                "html.parser tokenisation, BeautifulSoup tree building (counted against the spec, SAMI events / "
+                                "DFXP trees only)", "document skeletons (head, timing attributes) around the inline content",
+                                "SRT / MicroDVD line splitting (model vs reader), no theorem"]}
     res["trusted_extra"] = ["html.parser and BeautifulSoup(html.parser / lxml) as library layers, bracketed by spec "
                             "events_of / tree_of on every generated cue"]
     return res
